@@ -110,7 +110,7 @@ class NestedEvent(Event):
     def trigger(self, model, *args, **kwargs):
         raise RuntimeError("NestedEvent.trigger must not be called directly. Call Machine.trigger_event instead.")
 
-    def trigger_nested(self, event_data):
+    def trigger_nested(self, event_data, branch=None):
         """Executes all transitions that match the current state,
         halting as soon as one successfully completes.
         It is up to the machine's configuration of the Event whether processing happens queued (sequentially) or
@@ -125,6 +125,9 @@ class NestedEvent(Event):
         model = event_data.model
         state_tree = machine.build_state_tree(getattr(model, machine.model_attribute), machine.state_cls.separator)
         state_tree = reduce(dict.get, machine.get_global_name(join=False), state_tree)
+        if branch is not None:
+            # offer the event to the states of this branch only; sibling regions get their own turn
+            state_tree = {branch: state_tree[branch]} if branch in state_tree else {}
         ordered_states = resolve_order(state_tree)
         done = set()
         result = None
@@ -1278,7 +1281,7 @@ class HierarchicalMachine(Machine):
                         res[key] = tmp
             if res.get(key, False) is False and trigger in self.events:
                 event_data.event = self.events[trigger]
-                tmp = event_data.event.trigger_nested(event_data)
+                tmp = event_data.event.trigger_nested(event_data, key)
                 if tmp is not None:
                     res[key] = tmp
         return None if not res or all(v is None for v in res.values()) else any(res.values())
